@@ -24,6 +24,16 @@ from .commons import (
 )
 
 
+def _man_frame(raw_man, frame):
+    """Frame of a maneuver, as expected by the Man classes: None if it is the
+    frame of the state vector, RSW (or RTN) being the CCSDS name of QSW
+    """
+    man_frame = raw_man["MAN_REF_FRAME"].text
+    if man_frame in ("RSW", "RTN"):
+        man_frame = "QSW"
+    return man_frame if man_frame != frame else None
+
+
 def loads(string, fmt):
     """Read of OPM string
 
@@ -91,11 +101,7 @@ def _loads_kvn(string):
         man = {}
         man["date"] = parse_date(raw_man["MAN_EPOCH_IGNITION"].text, scale)
         man["duration"] = timedelta(seconds=decode_unit(raw_man, "MAN_DURATION", "s"))
-        man["frame"] = (
-            raw_man["MAN_REF_FRAME"].text
-            if raw_man["MAN_REF_FRAME"].text != frame
-            else None
-        )
+        man["frame"] = _man_frame(raw_man, frame)
         man["delta_mass"] = raw_man["MAN_DELTA_MASS"].text
         man["comment"] = raw_man["COMMENT"].text if "COMMENT" in raw_man else None
 
@@ -179,11 +185,7 @@ def _loads_xml(string):
             man["duration"] = timedelta(
                 seconds=decode_unit(raw_man, "MAN_DURATION", "s")
             )
-            man["frame"] = (
-                raw_man["MAN_REF_FRAME"].text
-                if raw_man["MAN_REF_FRAME"].text != frame
-                else None
-            )
+            man["frame"] = _man_frame(raw_man, frame)
             man["delta_mass"] = raw_man["MAN_DELTA_MASS"].text
             man["comment"] = raw_man["COMMENT"].text if "COMMENT" in raw_man else None
 
